@@ -290,6 +290,8 @@ def run(tier):
                 dist["schedule/%s" % k] += c
             for cls, what in viol:
                 rep.add_violation(cls, what, {"unit": "schedule", "case": case})
+        import c07 as c07_
+        c07_.window_schedule(rep, tier_, sd)       # the window flag these strategies act on, step by step
         rep.cov["evaluations"] += n * (len(SIGNAL_STRATS) + 3)
         rep.cov["distinct_nontrivial"] += sum(c for k, c in dist.items() if k.endswith("/periods") or k.endswith("compared") or k.endswith("vehicle-steps"))
         rep.notes["signal"] = {"scenarios_per_strategy": n, "dist": dict(dist)}
@@ -316,7 +318,7 @@ def replay(payload):
     if inp.get("unit") == "windows":
         import c15
         return c15.replay(payload)
-    if inp.get("unit") in ("events", "weekly"):
+    if inp.get("unit") in ("events", "weekly", "windowsched"):
         import c07
         return c07.replay(payload)
     case = C.unjson(inp["case"])
